@@ -1006,7 +1006,13 @@ def invariants(hist, workdir, state, seed):
         _quiet(gp2.add_reactions, [rxn_to_pkg(r) for r in rx2[:cut]])
     if cut < len(rx2):
         _quiet(gp2.add_reactions, [rxn_to_pkg(r) for r in rx2[cut:]])
-    _quiet(gp2.fit, x=x, sigma_min=fop["sigma_min"])
+    try:
+        _quiet(gp2.fit, x=x, sigma_min=fop["sigma_min"])
+    except np.linalg.LinAlgError:
+        # the training matrix is numerically singular (its Cholesky factorisation succeeds or
+        # fails with the rounding of one ordering): not the package's doing, nothing is judged
+        stats["inv_order_not_judged_singular_matrix"] += 1
+        return viol, stats
     for ik, k in enumerate(gp2.kernels):
         d = np.abs(np.asarray(k.alpha) - base_alpha[ik]).max() if np.asarray(k.alpha).shape == base_alpha[ik].shape else np.inf
         if d > tol_a[ik]:
